@@ -109,9 +109,23 @@ func TestC12(t *testing.T) {
 			}
 		}
 	}
+	// the application's hook uses the pipe inside its Detached callback (appended last)
+	for rep := 0; rep < reps; rep++ {
+		for _, tr := range trans {
+			for _, m := range []string{"close", "options", "slow"} {
+				side := []string{"dial-side", "listen-side"}[rnd.Intn(2)]
+				if rep%2 == 1 {
+					side = "dial-side"
+				}
+				cases = append(cases, mon.CaseSpec{Name: "detachhook/" + tr + "/" + m, Spec: spec{Kind: "detachhook", Tran: tr, Err: m, Stranger: side}})
+			}
+		}
+	}
 	r.Run(cases, func(c *mon.Case) {
 		sp := c.Spec.(spec)
 		switch sp.Kind {
+		case "detachhook":
+			runDetachHook(c, sp)
 		case "listener":
 			runListener(c, sp)
 		case "dialer":
